@@ -87,6 +87,9 @@ def hosts():
     H['frames'] = [('block', 'b', [I('_a', '1'), ('frame', 'f', [I('_fa', '10'), I('_fb', '20')]), ('frame', 'g', [I('_ga', '30')]), I('_z', 'end')]),
                    ('block', 'c', [I('_a', '2')])]
     H['listloop'] = [('block', 'b', [('loop', ['_m', '_n'], [[('[1 2]', ('l', (S('1'), S('2')))), ('u', S('u'))], [('[]', ('l', ())), ('v', S('v'))]]), I('_z', 'end')])]
+    # legal but unusual tokens: none of them is a defect, so none may trigger the callback where the host is parsed as it is
+    H['oddities'] = [('block', 'b', [I('_a', '1'), I('_s', ';x'), I('_h', 'a#b'), I('_q', "it's"), I('_d', 'x$y'), I('_u', 'a_b'), I('_e', 'a;b;'), I('_k', 'DATA'), I('_l', 'loop'),
+                                     I('_z', 'end')])]
     return H
 
 
